@@ -21,6 +21,7 @@ import Driver.Attribute
 import Driver.ExtDecline
 import Driver.Convert
 import Driver.ConvertH
+import Driver.ConvertX
 namespace Driver
 
 def handle (line : String) : String :=
@@ -49,6 +50,7 @@ def handle (line : String) : String :=
   | "extdecline" :: rest => handleExtDecline rest
   | "convert" :: rest => handleConvert rest
   | "converth" :: rest => handleConvertH rest
+  | "convertx" :: rest => handleConvertX rest
   | _ => bad
 
 partial def loop (hin hout : IO.FS.Stream) : IO Unit := do
